@@ -213,7 +213,11 @@ def net_strategy(safe):
         })
         return st.fixed_dictionaries({"n": st.integers(3, 4), "L0": st.integers(1, 3),
                                       "faults": st.lists(fault, min_size=1, max_size=6), "safe": st.just(safe),
-                                      "bidir": st.booleans()})
+                                      "bidir": st.booleans(),
+                                      # a recurring RandomPartition among a subset S of the hosts (>= 2), next to the windowed faults:
+                                      # pairs with an endpoint outside S must be unaffected by it
+                                      "rand": st.fixed_dictionaries({"on": st.sampled_from([False, False, False, True]), "mask": st.integers(0, 15),
+                                                                     "mtbf": st.integers(1, 8), "mttr": st.integers(1, 6), "seed": st.integers(0, 5)})})
     return s
 
 
@@ -248,6 +252,14 @@ def net_faults(case):
     return out
 
 
+def rand_nodes(case):
+    """Hosts subject to the RandomPartition fault (empty when it is off or would cover fewer than two hosts)."""
+    rd = case.get("rand") or {}
+    n = max(3, case["n"])
+    S = [i for i in range(n) if rd.get("on") and (int(rd.get("mask", 0)) >> i) & 1]
+    return S if len(S) >= 2 else []
+
+
 def pairs_of(g):
     if g["kind"] != "part":
         return {(g["src"], g["dst"])}
@@ -261,7 +273,7 @@ def run_net(case):
     from happysimulator import Entity, Event, Instant, Network, Simulation
     from happysimulator.components.network.link import NetworkLink
     from happysimulator.distributions.constant import ConstantLatency
-    from happysimulator.faults import FaultSchedule, InjectLatency, InjectPacketLoss, NetworkPartition
+    from happysimulator.faults import FaultSchedule, InjectLatency, InjectPacketLoss, NetworkPartition, RandomPartition
     n = max(3, case["n"])
     L0 = max(1, case["L0"]) * TICK
     got = {}
@@ -302,6 +314,10 @@ def run_net(case):
             h.cancel()
         elif g["cancel"] == 2:
             late.append(h)
+    S = rand_nodes(case)
+    if S:
+        rd = case["rand"]
+        sched.add(RandomPartition([f"h{i}" for i in S], mtbf=max(1, rd["mtbf"]) / 512, mttr=max(1, rd["mttr"]) / 512, seed=int(rd["seed"])))
     sim = Simulation(entities=[net] + hosts, fault_schedule=sched)
     for h in late:
         h.cancel()
@@ -318,7 +334,7 @@ def run_net(case):
                     ev.context["metadata"].update({"source": f"h{i}", "destination": f"h{j}", "pid": pid})
                     sim.schedule(ev)
     SimProbe(sim, log=False).run()
-    final = {"partitioned": sorted((i, j) for (i, j) in links if net.is_partitioned(f"h{i}", f"h{j}")),
+    final = {"partitioned": sorted((i, j) for (i, j) in links if net.is_partitioned(f"h{i}", f"h{j}") and not (i in S and j in S)),
              "loss": {f"{i}{j}": l.packet_loss_rate for (i, j), l in links.items() if l.packet_loss_rate != 0}}
     return probes, got, faults, L0, final
 
@@ -328,6 +344,7 @@ def execute_net(obl):
         r = Result()
         probes, got, faults, L0, final = run_net(case)
         flags = {"nt": False}
+        wild = set(rand_nodes(case))        # a pair inside this set may also be cut by the random partition at any time
 
         def judge(treat_live):
             out = []
@@ -348,7 +365,7 @@ def execute_net(obl):
                     if act[k] and not act[other] and arrived is not None:
                         out.append((f"{P}/{obl}/{k}/not-in-effect-inside-window/{cls_of([k], (i, j))}",
                                     f"probe h{i}->h{j} sent at {t} ns was delivered although inside {[(g['a'], g['b']) for g in act[k]]}"))
-                if not drop_expected and arrived is None:
+                if not drop_expected and arrived is None and not (i in wild and j in wild):
                     kinds = [k for k in ("part", "loss") if any(g["kind"] == k and (i, j) in pairs_of(g) for g in live)] or ["none"]
                     k = kinds[0] if len(kinds) == 1 else "part-or-loss"
                     out.append((f"{P}/{obl}/{k}/in-effect-outside-window/{cls_of(('part', 'loss'), (i, j))}",
@@ -375,7 +392,7 @@ def execute_net(obl):
         with_cancel_hypotheses(r, obl, modes, judge)
         r.nontrivial = flags.get("live", False) and (flags["nt"] or obl.endswith("safe"))
         r.labels += [l for l, c in (("overlap-or-adjacent", flags["nt"]), ("cancelled", bool(modes)),
-                                    ("bidirectional-links", bool(case.get("bidir"))),
+                                    ("bidirectional-links", bool(case.get("bidir"))), ("random-partition-nearby", bool(wild)),
                                     ("kinds:" + "".join(sorted({g["kind"][0] for g in faults if not g["cancel"]})), True)) if c]
         return r
     return execute
